@@ -188,7 +188,7 @@ def run_dynamic(rep, tier_, names, unsafe, cov):
         json.dump(job, open(jf, "w"))
         if os.path.exists(of):
             os.remove(of)
-        p = subprocess.Popen(["timeout", str(budget + 120), sys.executable, DYN, "--run", jf, of], env=child_env(),
+        p = subprocess.Popen(["timeout", str(budget + (120 if tier_ == "quick" else 600)), sys.executable, DYN, "--run", jf, of], env=child_env(),
                              stdout=subprocess.DEVNULL, stderr=subprocess.PIPE, text=True)
         procs.append((p, of))
     results = []
